@@ -11,7 +11,8 @@ from gen import members, sweep
 
 RULE = ("(a) X/Z matrices with sign vectors: ALL 2^8 pairs for n=2 x all 4 sign vectors; n=3: all 2^18 pairs in thorough, "
         "20 000 drawn in quick; n=4..6 by Hypothesis from three distributions (uniform, sparse, valid stabilizer with one "
-        "bit flipped / one column duplicated / one column replaced). (b) Pauli-string lists incl. wrong count and unequal "
+        "bit flipped / one column duplicated / one column replaced); the graph-form generators of every table entry's graph with one bit "
+        "changed (all single changes for n <= 4, a share for n = 5, 6). (b) Pauli-string lists incl. wrong count and unequal "
         "lengths. (c) the full product {0..8} x {9 known names, 'allx', case variants, '', other text} x 12 public entry "
         "points. A case is one request; outcome classes: raised / returned. Oracle: brute-force validity (pairwise "
         "symplectic products, span enumeration); a returned preparation circuit must (dense) be stabilised by every given "
@@ -264,6 +265,34 @@ def shard_hyp(arg):
     return rep
 
 
+# ---- near misses of the representatives the tables store ----------------------------------------------------
+
+def shard_table_near_miss(arg):
+    """the canonical graph-form generators of the graph stored in a table entry with ONE bit changed (a Z made I or vice versa off
+    the diagonal, or an X added): the operator set closest to what the pipeline is tuned for, but not a stabilizer"""
+    n, name, class_ids, stride, seed, deadline = arg
+    from gen import tableinfo
+    rep = fw.Report()
+    ent = tableinfo.parsed(n, name)
+    for k in class_ids:
+        if k >= len(ent) or ent[k] is None:
+            continue
+        base = lc.graph_state_gens(n, ent[k][0])
+        flips = [(j, "z", q) for j in range(n) for q in range(n) if q != j] + [(j, "x", q) for j in range(n) for q in range(n) if q != j]
+        for fi, (j, which, q) in enumerate(flips):
+            if stride > 1 and fw.h64("c08t", seed, n, name, k, fi) % stride:
+                continue
+            if deadline and time.time() > deadline:
+                rep.truncated = True
+                return rep
+            gens = [list(g) for g in base]
+            gens[j][1 if which == "x" else 2] ^= 1 << q
+            fmt = ["matrices", "strings", "matrices+phases"][fi % 3]
+            run_ops(rep, {"n": n, "connectivity": name, "gens": gens, "format": fmt, "distribution": "table-graph-near-miss"},
+                    sample=(k % 50 == 3 and fi == 1))
+    return rep
+
+
 # ---- malformed string lists ---------------------------------------------------------------------
 
 def shard_lists(arg):
@@ -401,7 +430,8 @@ def shard_entries(arg):
 def shard(arg):
     kind = arg[0]
     libif.limit_memory(6)
-    return {"matrices": shard_matrices, "hyp": shard_hyp, "lists": shard_lists, "entries": shard_entries}[kind](arg[1:])
+    return {"matrices": shard_matrices, "hyp": shard_hyp, "lists": shard_lists, "entries": shard_entries,
+            "table-near-miss": shard_table_near_miss}[kind](arg[1:])
 
 
 def run(ctx):
@@ -420,6 +450,11 @@ def run(ctx):
             args.append(("matrices", 3, ["range", [lo, lo + step]], 1, "all", ctx.seed, dl))
     for i in range(16):
         args.append(("hyp", ctx.seed * 1000 + i, 60 if q else 1500, dl))
+    kc = {2: 2, 3: 5, 4: 18, 5: 93, 6: 760}
+    for (n, name) in coupling.CONFIGS:
+        stride = 1 if n <= 4 else ((4 if n == 5 else 40) if q else (1 if n == 5 else 4))
+        for chunk in fw.split(list(range(kc[n])), 1 if n <= 4 else (2 if n == 5 else 8)):
+            args.append(("table-near-miss", n, name, chunk, stride, ctx.seed, dl))
     rep = fw.run_shards(ctx, "props.c08", "shard", args)
     rep.extra["exhaustive"] = False
     rep.extra["exhaustive_part"] = ("all 2^8 matrix pairs for n=2 x all sign vectors; full product of entry points x names x qubit counts 0..8" +
